@@ -245,20 +245,21 @@ GSEED = 0
 WSCRIPTS = ['select a, bb, ccc, f(x, yy, zzz) from t where a = 1',
             'select a, b from t1, t2 where x in (select k, l from u)',
             "insert into t (a, bb, ccc) values (1, 'x y', 3)",
-            'select count(a, b), case when a then 1 else 2 end from t order by a, bb, ccc']
+            'select count(a, b), case when a then 1 else 2 end from t order by a, bb, ccc',
+            'select a, b -- c\n, f(x -- d\n, y), e from t']
 
 
 def wrap(wrap_after: int, width: int, si: int, comma_first: bool, columns: bool) -> int:
     """
     pre: wrap_after >= 0
     pre: 1 <= width <= 3
-    pre: 0 <= si < 4
+    pre: 0 <= si < 5
     pre: PART < 0 or si * 3 + (width - 1) == PART
     post: _ != 2
     """
     # wrap_after is an UNBOUNDED symbolic integer: reindent only compares it; indent_width is a
     # repetition count and is case-split (1..3)
-    text = WSCRIPTS[conc(si, 3)]
+    text = WSCRIPTS[conc(si, 4)]
     o = dict(reindent=True, wrap_after=wrap_after, indent_width=conc(width, 3, 1), comma_first=True if comma_first else False,
              indent_columns=True if columns else False)
     w = tokens_why(text, o)
